@@ -39,6 +39,8 @@ CONSTANTS
     AllowLsn,    \* the listener may be closed while the connection is relayed
     FixLost,     \* TRUE: model of the code with fixes/F11 applied
     FixCross,    \* TRUE: model of the code with fixes/F12 applied
+    EarlyBias,   \* generation only: the confirmation is held back until L
+                 \*   wrote two units or sent its FIN (more early-data behaviours)
     DropEarly,   \* sensitivity: early data is dropped at confirmation
     NoEofRelay   \* sensitivity: forwarders do not pass EOF on
 
@@ -263,6 +265,8 @@ DeliverOA(ok) ==
 
 DeliverAO ==
     /\ Live /\ S.qAO # <<>>
+    /\ (EarlyBias /\ Head(S.qAO).t = "conf" /\ S.appSt.L = "open" =>
+            Len(S.sent.L) >= 2 \/ S.appFin.L)
     /\ S' = StepO(S)
     /\ lbl' = <<"DAO">>
 
